@@ -36,8 +36,11 @@ Init == /\ nreq = 0 /\ q1 = <<>> /\ q2 = <<>> /\ sb = <<>> /\ us = <<>> /\ ping 
         /\ tree = {} /\ p2in = <<>> /\ half = NoHalf
         /\ wire = <<>> /\ done = <<>> /\ disp = {} /\ last = [a |-> "init"] /\ prev = <<>> /\ steps = 0 /\ hist = <<>>
 
+\* lost = this step is in the class of the known finding: an acknowledgement of the very request whose
+\* sending call is still between write and register
 Log(a) == /\ last' = a /\ prev' = abs /\ steps' = steps + 1
-          /\ hist' = Append(hist, [a |-> a, wire |-> wire', done |-> done', disp |-> disp'])
+          /\ hist' = Append(hist, [a |-> a, wire |-> wire', done |-> done', disp |-> disp',
+                                    lost |-> (a.a = "peerack" /\ half.on /\ a.r = half.r)])
 
 Pk(ty, r, q) == [ty |-> ty, r |-> r, q |-> q, id |-> 0, t |-> "", fs |-> <<>>]
 JoinAll(fs) == [i \in 1..Len(fs) |-> Join(fs[i])]
